@@ -290,7 +290,9 @@ impl<'a> Hist<'a> {
     pub fn op_block(&mut self, src: &str, block: &Block, label: &str) -> Option<String> {
         let dst = self.w.fresh("s");
         let s = self.w.sealed.get(src).unwrap().clone();
-        let txs: Vec<Transaction> = block.transactions.iter().cloned().collect();
+        // listed in a canonical order (the real apply_block iterates its HashSet in a per-process random order)
+        let mut txs: Vec<Transaction> = block.transactions.iter().cloned().collect();
+        txs.sort_by_key(|t| (t.hash_nosigs().0 .0, t.sigs.iter().map(|s| s.to_vec()).collect::<Vec<_>>()));
         if let Some(a) = &block.proposer_action {
             self.w.names.reg_cov(a.reward_dest);
         }
@@ -719,13 +721,19 @@ pub fn merge(a: &mut BTreeMap<String, u64>, b: &BTreeMap<String, u64>) {
     }
 }
 
+fn sorted_txs(b: &Block) -> Vec<Transaction> {
+    let mut v: Vec<Transaction> = b.transactions.iter().cloned().collect();
+    v.sort_by_key(|t| t.hash_nosigs().0 .0);
+    v
+}
+
 /// single-field mutations of a block
 pub fn mutate_block(r: &mut Rng, b: &mut Block, h: &mut Hist, pre_mult: u128, tip901: bool) -> String {
     let flip = |x: &mut tmelcrypt::HashVal| x.0[0] ^= 1;
     match r.below(18) {
         16 | 17 => {
             // a copy of a member transaction that differs only in its signatures (same hash_nosigs)
-            if let Some(t) = b.transactions.iter().find(|t| !t.inputs.is_empty()).cloned().or_else(|| b.transactions.iter().next().cloned()) {
+            if let Some(t) = sorted_txs(b).into_iter().find(|t| !t.inputs.is_empty()).or_else(|| sorted_txs(b).into_iter().next()) {
                 let mut t2 = t.clone();
                 t2.sigs.push(r.bytes(3).into());
                 b.transactions.insert(t2);
@@ -780,7 +788,7 @@ pub fn mutate_block(r: &mut Rng, b: &mut Block, h: &mut Hist, pre_mult: u128, ti
             "hdr.stakes_hash".into()
         }
         11 => {
-            if let Some(t) = b.transactions.iter().next().cloned() {
+            if let Some(t) = sorted_txs(b).into_iter().next() {
                 b.transactions.remove(&t);
                 "tx.remove".into()
             } else {
@@ -789,7 +797,7 @@ pub fn mutate_block(r: &mut Rng, b: &mut Block, h: &mut Hist, pre_mult: u128, ti
             }
         }
         12 => {
-            if let Some(t) = b.transactions.iter().next().cloned() {
+            if let Some(t) = sorted_txs(b).into_iter().next() {
                 b.transactions.remove(&t);
                 let mut t2 = t.clone();
                 t2.fee = CoinValue(t2.fee.0 + 1);
